@@ -44,12 +44,12 @@ ASSUMPTIONS = [
 ]
 BUDGET_S = {"quick": 110, "thorough": 1200}
 
-HOT = ("_on_connected", "_dispatcher_thread_function", "_on_connection_message_received")
+HOT = ("_on_connected", "_dispatcher_thread_function", "_on_connection_message_received", "_perform_transition", "_on_disconnected")
 
 OPS = [
     "connect", "connect_inflight_select", "peer_close", "disable", "enable",
     "select_req", "select_rsp", "deselect_req", "deselect_rsp", "linktest_req", "linktest_rsp",
-    "separate_req", "reject_req", "data", "data", "app_request", "answer_select", "app_request_open", "reply_open", "reply_open",
+    "separate_req", "reject_req", "data", "data", "app_request", "answer_select", "app_request_open", "reply_open", "reply_open", "select_req_racing_close",
 ]
 
 
@@ -174,6 +174,17 @@ def run_case(case, observe=None):
                 if inflight:
                     m.state = e37.SELECTED
                     stats["selects"] += 1
+            elif k == "select_req_racing_close":
+                # a Select.req is still being dispatched when the peer closes: whatever the interleaving, the endpoint
+                # must end NOT CONNECTED (the response may or may not make it onto the dying link)
+                if not peer_up or m.state != e37.NOT_SELECTED:
+                    continue
+                collect()
+                rig.peer.send(e37.control_frame(e37.SELECT_REQ, nxt()))
+                rig.peer.close()
+                sim.advance(3.0)
+                m.state = e37.NOT_CONNECTED
+                stats["select_racing_close"] = stats.get("select_racing_close", 0) + 1
             elif k == "peer_close":
                 if not peer_up:
                     continue
@@ -379,6 +390,8 @@ def run_task(name, kw, ctx):
             cls.append("reconnect")
         if obs.get("inflight"):
             cls.append("inflight-select")
+        if obs.get("select_racing_close"):
+            cls.append("select-req-racing-close")
         if obs.get("reply_while_not_selected"):
             cls.append("reply-to-open-transaction-while-not-selected")
         if obs.get("preempt_hits"):
